@@ -394,6 +394,16 @@ def check_export(ctx, h, case, stratum, reads, body_region=None):
         ctx.count("monitor:export-twice")
         if repr(h.to_model()) != repr(m):
             bad("second-export-differs", "to_model() twice", "the same module", "differs")
+        # the package entry point exports each module as the module's own export (a second module alongside must not
+        # disturb it: exporters share nothing)
+        from hugr.package import Package
+
+        ctx.count("monitor:package-export")
+        pm = Package([h, h], []).to_model()
+        mods = getattr(pm, "modules", None)
+        if not isinstance(mods, list) or len(mods) != 2 or any(repr(x) != repr(m) for x in mods):
+            bad("package-export-differs", "Package([h, h]).to_model()", "two copies of the module's export",
+                "differs" if isinstance(mods, list) else repr(type(pm)))
 
     ports_of = {}
 
@@ -467,6 +477,33 @@ def check_export(ctx, h, case, stratum, reads, body_region=None):
                 ctx.feat("feature:unused-output")
         # ---- operation-specific
         mop = mn.operation
+        # M-OP: the exported node is of the kind hugr-core's exporter writes for the operation (export.rs,
+        # export_node_shallow): containers keep their kind -- that is what "mirrors the hierarchy" means for a node
+        # that holds regions --, everything else is a custom operation named after what it is
+        want_kind = {ops.DFG: "Dfg", ops.CFG: "Cfg", ops.DataflowBlock: "Block", ops.TailLoop: "TailLoop",
+                     ops.Conditional: "Conditional", ops.FuncDefn: "DefineFunc", ops.FuncDecl: "DeclareFunc",
+                     ops.AliasDecl: "DeclareAlias", ops.AliasDefn: "DefineAlias"}.get(type(op), "CustomOp")
+        ctx.count("monitor:M-OP")
+        if type(mop).__name__ != want_kind:
+            bad("M-OP", [n.idx, type(op).__name__], want_kind, type(mop).__name__)
+        elif want_kind == "CustomOp":
+            t_ = mop.operation
+            sym = t_.symbol if isinstance(t_, model.Apply) else None
+            want_sym = None
+            if isinstance(op, ops.Tag):
+                want_sym = "core.make_adt"
+                tagarg = t_.args[-1] if isinstance(t_, model.Apply) and t_.args else None
+                if not (isinstance(tagarg, model.Literal) and tagarg.value == op.tag):
+                    bad("M-OP", [n.idx, "Tag", "tag"], op.tag, repr(tagarg)[:80])
+            elif isinstance(op, ops.CallIndirect):
+                want_sym = "core.call_indirect"
+            elif isinstance(op, (ops.Custom, ops.ExtOp)) or isinstance(op, ops.AsExtOp):
+                c_ = op if isinstance(op, ops.Custom) else op.ext_op.to_custom_op() if not isinstance(op, ops.ExtOp) \
+                    else op.to_custom_op()
+                want_sym = f"{c_.extension}.{c_.op_name}"
+                ctx.feat("feature:custom-op-symbol")
+            if want_sym is not None and sym != want_sym:
+                bad("M-OP", [n.idx, type(op).__name__, "symbol"], want_sym, repr(sym))
         if isinstance(op, (ops.FuncDefn, ops.FuncDecl)):
             want_cls = model.DefineFunc if isinstance(op, ops.FuncDefn) else model.DeclareFunc
             if not isinstance(mop, want_cls):
